@@ -65,7 +65,7 @@ def imm_domain(m):
     if c in ('I', 'S'):
         return range(-2048, 2048)
     if c == 'CSR':
-        return range(-2048, 2048)      # 0..0x7ff documented; negatives = the undocumented spelling of 0x800..0xfff
+        return range(-2048, 4096)      # 0..0xfff are the CSR numbers; negatives = the older spelling of 0x800..0xfff
     if c == 'B':
         return range(-4096, 4096, 2)
     if c == 'U':
